@@ -25,6 +25,39 @@ def seeds():
         n += 1; caught += bool(res["caught_by"])
         out.append("| %s | %s | %s | %s | %s | %s |" % (os.path.basename(d), res["property"], needs, cb, missed, later))
     return "\n".join(out), n, caught
+def mutants():
+    """Appendix D: per property, the in-house mutation self-test (mutants/<Cxx>/RESULTS.md written by the builders)."""
+    out = ["| id | semantic mutants | caught | real misses (closed by a generator/op addition) | equivalent | benign: exit 0 | benign: reported as no-failing-input-found |", "|---|---|---|---|---|---|---|"]
+    tot = [0, 0, 0, 0]
+    for i in range(1, 21):
+        pid = "C%02d" % i
+        f = ROOT + "/mutants/%s/RESULTS.md" % pid
+        if not os.path.exists(f):
+            out.append("| %s | — | | | | | |" % pid); continue
+        sem = caught = miss = equiv = b0 = bn = 0
+        for l in open(f):
+            m = re.match(r"\|\s*\**\s*([mb])(\d+)\b[^|]*\|(.*)", l, re.I)
+            if not m:
+                continue
+            rest = m.group(3).lower()
+            if m.group(1).lower() == "m":
+                sem += 1
+                if "equivalent" in rest and "not equivalent" not in rest and "non-equivalent" not in rest:
+                    equiv += 1
+                elif "miss" in rest:
+                    miss += 1
+                elif "caught" in rest or "violation" in rest or "exit 1" in rest:
+                    caught += 1
+            else:
+                if "no-failing-input-found" in rest or "drift" in rest:
+                    bn += 1
+                elif "exit 0" in rest or "pass" in rest or "green" in rest:
+                    b0 += 1
+        tot[0] += sem; tot[1] += caught; tot[2] += miss; tot[3] += equiv
+        out.append("| %s | %d | %d | %d | %d | %d | %d |" % (pid, sem, caught, miss, equiv, b0, bn))
+    out.append("| total | %d | %d | %d | %d | | |" % tuple(tot))
+    return "\n".join(out)
+
 def status():
     import importlib, sys
     sys.path.insert(0, ROOT)
@@ -52,7 +85,8 @@ def write_design():
              "### Appendix A2 — status per property (from vlib/props and the last evidence files)\n\n%s\n\n"
              "### Appendix B — %d `fix:` commits in /repo (each one small repair; the pinned suite passes after each)\n\n%s\n\n"
              "### Appendix C — seeded-change trials: %d kept (confirmed independently), %d caught by the checks\n\n%s\n\n"
-             "<!-- AUTOGEN-END -->\n") % (status(), nf, f, n, c, sd)
+             "### Appendix D — in-house mutation self-test per property (details, witnesses and equivalence arguments: `mutants/<id>/RESULTS.md`; counted from those tables)\n\n%s\n\n"
+             "<!-- AUTOGEN-END -->\n") % (status(), nf, f, n, c, sd, mutants())
     d = open(ROOT + "/DESIGN.md").read()
     if "<!-- AUTOGEN-BEGIN" in d:
         d = d[:d.index("<!-- AUTOGEN-BEGIN")] + block + d[d.index("<!-- AUTOGEN-END -->") + len("<!-- AUTOGEN-END -->\n"):]
